@@ -336,8 +336,11 @@ class TypeTransformer:
         else:
             try:
                 # try for iterable of key, value pairs
-                # but data loss may happen in this case
-                # like dict([{"a": 1, "b": 2}]) == {"a": "b"}
+                if isinstance(data, (list, set, tuple)) and any(
+                    isinstance(item, Mapping) for item in data
+                ):
+                    # a mapping is not a key, value pair: dict([{"a": 1, "b": 2}]) == {"a": "b"}
+                    raise TypeError
                 return t(data)
                 # directly return
             except (TypeError, ValueError):
